@@ -190,4 +190,15 @@ def ishermDiaJ (j : Json) : Except String Json := do
   let a ← diaOf j "a"
   pure <| Json.mkObj [("isherm", ishermDia (fun (x y : CI) => x == ciConj y) (fun (x : CI) => x == (0 : CI)) a)]
 
+/-- {a} -> trace by the loop of `trace_dia` -/
+def traceDiaJ (j : Json) : Except String Json := do
+  let a ← diaOf j "a"
+  pure <| Json.mkObj [("value", ciJ (traceDia a))]
+
+/-- {op, state} -> `expect_dia`: the ket loops when the state has one column, the density-matrix loops otherwise -/
+def expectDiaJ (j : Json) : Except String Json := do
+  let o ← diaOf j "op"
+  let st ← diaOf j "state"
+  pure <| Json.mkObj [("value", ciJ (if st.cols = 1 then expectDiaKet ciConj o st else expectDiaDm o st))]
+
 end Qv.Drv.C01
